@@ -68,9 +68,9 @@ Qed.
 
 Ltac kill_cond E := exfalso; unfold INT_LIMIT, len_of in *; lia.
 
-Lemma recv_numbered_ok mk x d t rest : x < 4294967296 -> 4 + len_of d < INT_LIMIT -> good t = true ->
+Lemma recv_numbered_ok fx mk x d t rest : x < 4294967296 -> 4 + len_of d < INT_LIMIT -> good t = true ->
   bytes_of t = (be32 x ++ d) ++ rest ->
-  exists t', recv_numbered mk (4 + len_of d) t = Handled (AAppend (mk x) d) t' /\
+  exists t', recv_numbered fx mk (4 + len_of d) t = Handled (AAppend (mk x) d) t' /\
              good t' = true /\ bytes_of t' = rest.
 Proof.
   intros Hx Hl G B. rewrite <- app_assoc in B. unfold recv_numbered.
@@ -82,9 +82,9 @@ Proof.
   rewrite R3. exists t3. rewrite dec_be32, N.mod_small by exact Hx. auto.
 Qed.
 
-Lemma recv_metadata_ok f d t rest : nonul f = true -> 4 + len_of f + len_of d < INT_LIMIT -> good t = true ->
+Lemma recv_metadata_ok fx f d t rest : nonul f = true -> 4 + len_of f + len_of d < INT_LIMIT -> good t = true ->
   bytes_of t = (be32 (len_of f) ++ f ++ d) ++ rest ->
-  exists t', recv_metadata (4 + len_of f + len_of d) t = Handled (AAppend f d) t' /\
+  exists t', recv_metadata fx (4 + len_of f + len_of d) t = Handled (AAppend f d) t' /\
              good t' = true /\ bytes_of t' = rest.
 Proof.
   intros Hf Hl G B. rewrite <- !app_assoc in B. unfold recv_metadata.
@@ -101,9 +101,9 @@ Proof.
   rewrite R4. exists t4. rewrite cstr_nonul by exact Hf. auto.
 Qed.
 
-Lemma recv_info_ok h i t rest : length h = HDR -> sizeof_uftrace_file_header + len_of i < INT_LIMIT ->
+Lemma recv_info_ok fx h i t rest : length h = HDR -> sizeof_uftrace_file_header + len_of i < INT_LIMIT ->
   good t = true -> bytes_of t = (swap_hdr h ++ i) ++ rest ->
-  exists t', recv_info (sizeof_uftrace_file_header + len_of i) t = Handled (AAppend n_info (h ++ i)) t' /\
+  exists t', recv_info fx (sizeof_uftrace_file_header + len_of i) t = Handled (AAppend n_info (h ++ i)) t' /\
              good t' = true /\ bytes_of t' = rest.
 Proof.
   intros Hh Hl G B. rewrite <- app_assoc in B. unfold recv_info.
@@ -117,9 +117,9 @@ Proof.
   rewrite R3. exists t3. rewrite swap_hdr_invol by exact Hh. auto.
 Qed.
 
-Lemma recv_dir_name_ok name t rest : nonul name = true -> len_of name < INT_LIMIT -> good t = true ->
+Lemma recv_dir_name_ok fx name t rest : nonul name = true -> len_of name < INT_LIMIT -> good t = true ->
   bytes_of t = name ++ rest ->
-  exists t', recv_dir_name (len_of name) t = Handled (AMkdir name) t' /\ good t' = true /\ bytes_of t' = rest.
+  exists t', recv_dir_name fx (len_of name) t = Handled (AMkdir name) t' /\ good t' = true /\ bytes_of t' = rest.
 Proof.
   intros Hn Hl G B. unfold recv_dir_name.
   destruct (INT_LIMIT <=? len_of name) eqn:E; [kill_cond E|].
@@ -135,8 +135,8 @@ Qed.
 
 (* ONE MESSAGE: whatever the segmentation of the stream (and EINTRs), the receiver decodes exactly
    the action of the message the sender encoded and leaves exactly the rest of the stream *)
-Lemma handle_msg m t rest : wf_msg m = true -> good t = true -> bytes_of t = enc m ++ rest ->
-  exists t', handle_client_sock t = Handled (action_of m) t' /\ good t' = true /\ bytes_of t' = rest.
+Lemma handle_msg fx m t rest : wf_msg m = true -> good t = true -> bytes_of t = enc m ++ rest ->
+  exists t', handle_client_sock fx t = Handled (action_of m) t' /\ good t' = true /\ bytes_of t' = rest.
 Proof.
   intros W G B. rewrite enc_split, <- app_assoc in B.
   destruct (read_all_app t _ _ G B) as [t1 [R [B1 G1]]].
@@ -156,7 +156,7 @@ Proof.
 Qed.
 
 (* a stream that stops inside a message kills the server ("message recv failed" / "recv ... failed") *)
-Lemma handle_truncated_header t : (length (bytes_of t) < MSGHDR)%nat -> handle_client_sock t = Died.
+Lemma handle_truncated_header fx t : (length (bytes_of t) < MSGHDR)%nat -> handle_client_sock fx t = lost fx.
 Proof. intros L. unfold handle_client_sock. rewrite read_all_short by exact L. reflexivity. Qed.
 
 (* ------------------------------------------------------------------ whole runs, many sockets *)
@@ -187,7 +187,7 @@ Proof.
   - cbn. exists tm. split; [reflexivity|]. intros k. split; [apply G|]. rewrite B. reflexivity.
   - cbn [forallb snd] in W. apply andb_true_iff in W. destruct W as [Wm Wr].
     assert (Bk := B k). rewrite stream_of_cons_same, <- app_assoc in Bk.
-    destruct (handle_msg m (tm k) _ Wm (G k) Bk) as [t' [H [G' B']]].
+    destruct (handle_msg fx m (tm k) _ Wm (G k) Bk) as [t' [H [G' B']]].
     cbn [run map fst serve]. rewrite H.
     destruct (apply fx k (action_of m) s) as [s1|]; [|reflexivity].
     apply IH; auto.
@@ -224,9 +224,9 @@ Proof. apply cut_ok. Qed.
 (* ------------------------------------------------------------------ "whatever the sizes involved": the limit *)
 (* msg.len is unsigned on the wire but the receiver passes it on as `int len`: a message that announces 2^31 bytes
    or more (a trace buffer or metadata file of 2 GiB) makes `uftrace recv` exit, whatever follows on the stream *)
-Lemma length_limit t ty len rest : good t = true -> bytes_of t = msg_hdr ty len ++ rest ->
+Lemma length_limit fx t ty len rest : good t = true -> bytes_of t = msg_hdr ty len ++ rest ->
   ty < 65536 -> INT_LIMIT <= len -> len < 4294967296 ->
-  match classify ty with KEnd | KOther => True | _ => handle_client_sock t = Died end.
+  match classify ty with KEnd | KOther => True | _ => handle_client_sock fx t = Died \/ handle_client_sock fx t = lost fx end.
 Proof.
   intros G B Ht L1 L2.
   destruct (read_all_app t _ _ G B) as [t1 [R [B1 G1]]]. rewrite msg_hdr_length in R.
@@ -234,10 +234,29 @@ Proof.
   assert (Big : (INT_LIMIT <=? len) = true) by (apply N.leb_le; exact L1).
   unfold handle_client_sock. rewrite R, Hm, Hty, Hl, N.eqb_refl. cbn [negb].
   destruct (classify ty); try exact I.
-  - unfold recv_dir_name. rewrite Big. reflexivity.
-  - unfold recv_numbered. destruct (read_all t1 4) as [[x t2]|]; [rewrite Big|]; reflexivity.
-  - unfold recv_numbered. destruct (read_all t1 4) as [[x t2]|]; [rewrite Big|]; reflexivity.
-  - unfold recv_numbered. destruct (read_all t1 4) as [[x t2]|]; [rewrite Big|]; reflexivity.
-  - unfold recv_info. destruct (read_all t1 HDR) as [[x t2]|]; [rewrite Big|]; reflexivity.
-  - unfold recv_metadata. destruct (read_all t1 4) as [[x t2]|]; [rewrite Big|]; reflexivity.
+  - unfold recv_dir_name. rewrite Big. left. reflexivity.
+  - unfold recv_numbered. destruct (read_all t1 4) as [[x t2]|]; [rewrite Big; left|right]; reflexivity.
+  - unfold recv_numbered. destruct (read_all t1 4) as [[x t2]|]; [rewrite Big; left|right]; reflexivity.
+  - unfold recv_numbered. destruct (read_all t1 4) as [[x t2]|]; [rewrite Big; left|right]; reflexivity.
+  - unfold recv_info. destruct (read_all t1 HDR) as [[x t2]|]; [rewrite Big; left|right]; reflexivity.
+  - unfold recv_metadata. destruct (read_all t1 4) as [[x t2]|]; [rewrite Big; left|right]; reflexivity.
+Qed.
+
+(* ------------------------------------------------------------------ a connection that ends inside a data message *)
+Lemma truncated_data fx t ty len p : good t = true -> bytes_of t = msg_hdr ty len ++ p ->
+  ty < 65536 -> len < INT_LIMIT -> 4 <= len -> (length p < N.to_nat len)%nat ->
+  match classify ty with KData | KKernel | KPerf => handle_client_sock fx t = lost fx | _ => True end.
+Proof.
+  intros G B Ht L1 L4 Lp.
+  destruct (read_all_app t _ _ G B) as [t1 [R [B1 G1]]]. rewrite msg_hdr_length in R.
+  destruct (hdr_fields ty len Ht) as [Hm [Hty Hl]]; [unfold INT_LIMIT in L1; lia|].
+  assert (Num : forall mk, recv_numbered fx mk len t1 = lost fx).
+  { intros mk. unfold recv_numbered.
+    destruct (Nat.lt_ge_cases (length p) 4) as [Sh|Ge].
+    - rewrite read_all_short by (rewrite B1; exact Sh). reflexivity.
+    - destruct (read_all_spec t1 4 G1) as [t2 [R2 [B2 G2]]]; [rewrite B1; exact Ge|]. rewrite R2.
+      destruct ((INT_LIMIT <=? len) || (len <? 4)) eqn:E; [exfalso; unfold INT_LIMIT in *; lia|].
+      rewrite read_all_short; [reflexivity|]. rewrite B2, B1, skipn_length. lia. }
+  unfold handle_client_sock. rewrite R, Hm, Hty, Hl, N.eqb_refl. cbn [negb].
+  destruct (classify ty); try exact I; apply Num.
 Qed.
